@@ -27,6 +27,8 @@ TRUSTED_BASE = ["Coq 8.16.1 kernel (coqc), vm_compute only for closed witnesses"
                 "(incl. the extraction of sequence / direction / text from XML lines and from text lines with further fields: the "
                 "model formats only these three; timestamps, thread codes, level names and location strings are not modelled), vlib"]
 ASSUMPTIONS = ["std::ofstream buffering is modelled as: a line inserted into the stream reaches the file when the stream is flushed, by the "
+               "without the sequence flag the code does not advance its counters; the model keeps a line's ordinal in its series as a ghost "
+               "number, which is neither printed nor compared (the driver numbers the lines of such a file by counting)",
                "endl that follows every line (unbuffered path, no nolf/buffer flag) or on destruction; the theorems about written lines "
                "speak about flushed content, the harness reads the file before the logger is destroyed",
                "ff::uMPMC_Ptr_Queue behaves as an atomic FIFO (C30); try_push never fails (no allocation failure)",
@@ -35,7 +37,7 @@ ASSUMPTIONS = ["std::ofstream buffering is modelled as: a line inserted into the
                "all producers have finished before stop() is called (the property speaks of lines submitted before the stop)"]
 RULE = ("FileLogger in the basic layout (sequence [direction] text) for most cases, plus a few dozen cases each for XmlFileLogger, "
         "PipeLogger (|cat > file) and FileLogger with further fields (mstart, sstart, thread, timestamp, minitimestamp, level, location; "
-        "send() with and without a file/line string): there the harness extracts sequence, direction and text from every written line "
+        "send() with and without a file/line string; also WITHOUT the sequence flag, down to no prefix field at all and location alone): there the harness extracts sequence, direction and text from every written line "
         "(a line from which they cannot be extracted fails the oracle); a class of texts that end in or contain line ends (\\n, \\r\\n, "
         "only \\n; as the last line before stop() and mid-run). The file is read when stop() has returned and BEFORE the logger is "
         "destroyed, and counted again after the destruction: nothing may appear only then. 1..8 producer threads x 0..200 submit calls with levels Debug..Fatal against level masks 0..31 (none, all, single, random), "
@@ -123,6 +125,9 @@ LAYOUT_FLAGS = "msttTMlL".replace("tt", "t")
 
 
 def rand_layout(rng):
+    if rng.random() < 0.35:
+        # without the sequence flag: no prefix field at all ("Q" with direction 0), location alone, any subset of the others
+        return "Q" + rng.choice(["", "", "L", "L", "t", "l", "lL", "T", "M", "ms", "".join(f for f in "mstTMlL" if rng.random() < 0.4)])
     m = rng.randrange(6)
     if m == 0:
         return "-"
@@ -231,10 +236,12 @@ def gen_cases(rng, tier):
           Case("c 2 0 1111 0 0101", "fixed"), Case("a 31 0 11 1 -", "fixed"),
           Case("c 31 0 1111,222 1 0120,101 X tL 0101,111", "xml"), Case("c 31 0 11 0 00 X L 00", "xml"),
           Case("c 31 0 112 1 010 F mstTMlL 010", "layout"), Case("c 31 0 111,22 1 010,11 P - -", "pipe"),
+          Case("c 31 0 111,22 0 000,00 F Q 000,00", "layout"), Case("c 31 0 111 0 000 F QL 010", "layout"),
+          Case("c 31 0 111,2 1 010,1 F Q 000,0", "layout"), Case("c 31 0 11 1 01 X QtL 01", "xml"), Case("c 31 0 111 0 010 P QlL 101", "pipe"),
           Case("c 31 0 1111 0 0000 F - 0000 0ner", "newline"), Case("a 31 0 11 1 01 F - 00 Nn", "newline"),
           Case("c 31 0 1 0 0 F - 0 n", "newline"), Case("b 31 500 111,22 0 000,00 F - 000,00 00n,en", "newline"),
           Case("c 2 0 1b1", "empty-c"), Case("c 31 0 0a,111", "empty-c"), Case("c 1 0 1b1,22", "fixed")]
-    n = 2500 if thorough else 300
+    n = 2500 if thorough else 260
     for i in range(n):
         cs.append(gen_one(rng, CLASSES[i % len(CLASSES)], big=thorough or i % 4 == 0))
     # 8 threads x 200 lines once
